@@ -165,6 +165,9 @@ func main() {
 		if _, ok := byName[base]; !ok {
 			continue
 		}
+		if c.Opts["inline"] != "" {
+			continue // a directive ("always inline this helper"), not a contract to verify on its own
+		}
 		keys = append(keys, k)
 	}
 	sort.Strings(keys)
